@@ -43,6 +43,7 @@ class Ldmcsu(Gate):
 
     def __init__(self, unitary, num_controls, ctrl_state: str = None):
 
+        check_u2(np.array(unitary, dtype=complex))
         check_su2(unitary)
         self.unitary = unitary
         self.controls = QuantumRegister(num_controls)
